@@ -42,6 +42,14 @@ def generate(rng, tier: str, index: int) -> dict:
     mpls = rng.chance(0.3)
     for nb in nbrs:
         nb['mpls'] = mpls
+    # one `neighbor 10.0.1.0/24 { passive; }` block serving two peers that connect in: each gets a peer (and an Adj-RIB-Out) of its own
+    ranged = rng.chance(0.12)
+    targeted = False
+    if ranged:
+        # two peers of one range, and a selector naming a peer made from a range, are recorded findings (known_findings.jsonl):
+        # most ranged plans stay within what works (one peer, `peer *`)
+        nn, targeted = rng.choice([(1, False), (1, False), (1, False), (2, False), (1, True)])
+        nbrs = [dict(nbrs[0], idx=i, peer_ip=f'10.0.1.{2 + i}', peer_as=65002, rate_limit=0) for i in range(nn)]
     nvar = rng.randint(2, 4)
     variants = RW.gen_variants(rng, nvar)
     prefixes = rng.sample(RW.API_PREFIXES, rng.randint(2, 5)) + (rng.sample(RW.API_PREFIXES6, 1) if ipv6 else [])
@@ -75,6 +83,8 @@ def generate(rng, tier: str, index: int) -> dict:
         for _ in range(rng.randint(1, 14)):
             gap = rng.choice([0.0, 0.0, 0.0, 0.001, 0.004, 0.02, 0.1, 0.3])
             tgt = rng.choice(['*', '*', '*', rng.randint(0, nn - 1)])
+            if ranged and not targeted:
+                tgt = '*'
             k = rng.random()
             if k < 0.5:
                 ops.append({'op': 'ann', 'tgt': tgt, 'gap': gap, 'route': rnd_route()})
@@ -98,7 +108,7 @@ def generate(rng, tier: str, index: int) -> dict:
         bursts.append({'ops': ops, 'stall': stall})
     return {
         'micro_seed': rng.randint(1, 1 << 48), 'knobs': knobs(rng), 'neighbors': nbrs, 'variants': variants, 'static': static,
-        'bursts': bursts, 'chunk': rng.choice([0, 0, 3, 7, 20]),
+        'bursts': bursts, 'chunk': rng.choice([0, 0, 3, 7, 20]), 'range': ranged,
     }  # fmt: skip
 
 
@@ -160,6 +170,9 @@ class Intended:
 
 
 def execute(plan: dict) -> dict:
+    if plan.get('range'):
+        plan = jclone(plan)
+        plan.setdefault('knobs', {}).update({'listen_ip': RW.LOCAL, 'listen_port': 1790})
     w = make_world(plan)
     nbrs = plan['neighbors']
     variants = plan['variants']
@@ -167,8 +180,20 @@ def execute(plan: dict) -> dict:
     for s in plan['static']:
         static_txt.append(RW.route_text(s['route'], variants) + (' ' + s['mark'] if s['mark'] else ''))
     speakers = [RW.make_speaker(w, nb) for nb in nbrs]
-    conf = config_text([{'name': 'h1'}], [RW.neighbor_conf(nb, static_txt) for nb in nbrs])
+    if plan.get('range'):
+        conf = config_text([{'name': 'h1'}], [RW.neighbor_conf(nbrs[0], static_txt, extra={'peer_ip': '10.0.1.0/24', 'passive': True})])
+    else:
+        conf = config_text([{'name': 'h1'}], [RW.neighbor_conf(nb, static_txt) for nb in nbrs])
     w.boot(conf)
+    if plan.get('range'):
+
+        def knock() -> None:
+            for sp in speakers:
+                if sp.current() is None:
+                    sp.connect_in(RW.LOCAL, 1790)
+            w.after(5.0, knock)
+
+        w.at(0.5, knock)
     h = w.procs.helper('h1')
     if plan.get('chunk'):
         h.chunk_plan = [plan['chunk']] * 2000
@@ -255,6 +280,9 @@ def execute(plan: dict) -> dict:
         for i, nb in enumerate(nbrs):
             sess = speakers[i].established()
             peer = w.peer_for(nb['peer_ip'])
+            if sess is not None and peer is None:
+                violations.append(viol('C04/session-without-neighbor', f'a session with {nb["peer_ip"]} is established but exabgp has no peer for that address (peers: {sorted(str(p.neighbor.session.peer_address) for p in w.reactor._peers.values())})'))
+                return
             if sess is None or peer is None:
                 continue
             if sess.decode_errors:
@@ -347,6 +375,16 @@ def execute(plan: dict) -> dict:
 
     w.at(t, final)
     w.run(until=t + 80 * 5.0 + 1.0)
+    if plan.get('range') and violations and violations[0]['class'] in ('C04/peer-table-differs-from-reported', 'C04/stale-or-missing-announce', 'C04/withdrawn-route-present', 'C04/never-quiescent'):
+        # known finding (DESIGN.md 0.5): the peers made for the connections of one address range are shallow copies of the
+        # range's neighbor and share its RIB object; whichever peer runs its update generator first takes the queued routes
+        ribs = [id(p.neighbor.rib.outgoing) for p in w.reactor._peers.values() if p.neighbor.ephemeral]
+        v0 = violations[0]
+        named = [op for b in plan['bursts'] for op in b['ops'] if isinstance(op.get('tgt'), int)]
+        if len(ribs) > 1 and len(set(ribs)) == 1:
+            violations[0] = viol('C04/range-peers-share-adj-rib-out', f'two peers of the range 10.0.1.0/24 share one Adj-RIB-Out object; seen as {v0["class"]}: {v0["detail"]}', shared_rib=True, seen_as=v0['class'])
+        elif named and not any(n.startswith('neighbor 10.0.1.2 ') for n in w.reactor.configuration.neighbors):
+            violations[0] = viol('C04/range-peer-named-by-selector', f'`peer 10.0.1.2 ...` names a peer made from the range 10.0.1.0/24: acknowledged, applied to nobody (the configuration does not know the peer); seen as {v0["class"]}: {v0["detail"]}', dynamic_peer_selected=True, seen_as=v0['class'])
     nontrivial = (probes['op_while_generator_alive'] + probes['op_while_socket_blocked'] + probes['same_key_twice_in_burst']) > 0
     return result(w, violations[:1], faults=faults, probes=probes, nontrivial=nontrivial, sample={'neighbors': len(nbrs), 'ops': sum(len(b['ops']) for b in plan['bursts'])})
 
